@@ -13,6 +13,7 @@ import (
 	"os"
 	"path/filepath"
 	"sort"
+	"sync"
 	"testing"
 
 	"github.com/gagliardetto/solana-go"
@@ -264,6 +265,27 @@ func TestVerifC03Address(t *testing.T) {
 	t.Logf("aliasing addresses found: %d + %d", len(aliases), len(aliases4))
 }
 
+// c07sameAsFirst: is `ids` the first `lim` entries of the flattened newest-first history? (only decides which concurrent
+// answers are recorded besides every tenth one - the judge decides what is allowed)
+func c07sameAsFirst(hist [][]int, ids []int, lim int) bool {
+	var flat []int
+	for _, h := range hist {
+		flat = append(flat, h...)
+	}
+	if len(flat) > lim {
+		flat = flat[:lim]
+	}
+	if len(flat) != len(ids) {
+		return false
+	}
+	for i := range flat {
+		if flat[i] != ids[i] {
+			return false
+		}
+	}
+	return true
+}
+
 func TestVerifC07Handler(t *testing.T) {
 	out := vt.Out(t)
 	defer out.Close()
@@ -411,6 +433,56 @@ func TestVerifC07Handler(t *testing.T) {
 					out.Emit(c07JObs{Kind: "json", Case: ci + 1, Acct: acct, Hist: hist, Limit: x.limit, Before: x.before, Until: x.until, Result: ids, Err: e,
 						Multi: contributing >= 2, Whist: [][]string{}, Wresult: []string{}, Loaded: loadedNums})
 				}
+			}
+		}
+		// concurrent clients: the whole history of every account requested from several goroutines at once through the one
+		// handler (the per-epoch readers - pubkey index, linked log, CAR - are shared by all requests); every answer is
+		// judged like a sequential one
+		{
+			rounds := 40
+			if !vt.Quick() {
+				rounds = 400
+			}
+			var wg sync.WaitGroup
+			var mu sync.Mutex
+			var cobs []c07JObs
+			for g := 0; g < 9; g++ {
+				acct := 1 + g%3
+				hist := c07history(a.Arch, acct)
+				contributing := 0
+				for _, h := range hist {
+					if len(h) > 0 {
+						contributing++
+					}
+				}
+				addr := fixture.Account(seed, acct)
+				wg.Add(1)
+				go func(g int) {
+					defer wg.Done()
+					for r := 0; r < rounds; r++ {
+						lim := 1000
+						if (g+r)%4 == 3 {
+							lim = 2
+						}
+						ids, e := call(addr, lim, "", "")
+						if ids == nil {
+							ids = []int{}
+						}
+						if r%10 == 0 || e != "" || !c07sameAsFirst(hist, ids, lim) {
+							mu.Lock()
+							cobs = append(cobs, c07JObs{Kind: "json", Case: ci + 1, Acct: acct, Hist: hist, Limit: lim, Result: ids, Err: e,
+								Multi: contributing >= 2, Whist: [][]string{}, Wresult: []string{}, Loaded: loadedNums})
+							mu.Unlock()
+						}
+					}
+				}(g)
+			}
+			wg.Wait()
+			for _, o := range cobs {
+				if o.Err == "" {
+					o.Err = ""
+				}
+				out.Emit(o)
 			}
 		}
 		// C03: addresses without history - random ones and ones aliasing a stored address in the pubkey index
